@@ -1,4 +1,5 @@
 """C01 - tag reads return exactly what the controller holds."""
+from vlib.bench import ScenarioDead
 from vlib import common, logixreq
 from vlib.logixbench import CONFIGS, LogixScenario
 
@@ -85,41 +86,44 @@ def run(ctx):
     rng = ctx.rng()
     quick = ctx.quick
     nproj = 60 if quick else 500
-    for pi in range(nproj):
-        cfg = CONFIGS[(pi * ctx.nshards + ctx.shard) % len(CONFIGS)]
-        size = rng.choice(["small", "small", "medium", "medium", "large"])
-        sc = LogixScenario(rng, size=size, config=cfg)
-        res.count("projects")
-        res.count(f"config:{sc.label}")
-        if not sc.ok():
-            res.ev()
-            res.violation("open-failed", f"LogixDriver.open() against a conforming controller ({sc.label}, {len(sc.prj.user_tags())} tags) -> {sc.opened!r:.300}",
-                          {"config": sc.label, "log": [v[:3] for v in sc.b.log.violations[:3]]})
-            sc.close()
-            continue
-        ncalls = 20 if quick else 40
-        for ci in range(ncalls):
-            k = rng.choice([1, 1, 1, 2, 3, 5, 8, 12, 25])
-            reqs = [logixreq.gen_request(sc.prj, rng, sc.conn_size) for _ in range(k)]
-            if k > 2 and rng.random() < 0.3:
-                reqs[rng.randrange(k)] = reqs[0]  # duplicates
-            before = len(sc.dev.reads_executed)
-            st, out = sc.b.call("read", sc.drv.read, *[r.text for r in reqs])
-            if st != "ok":
+    for pi in range(nproj):  # WRAPPED
+        try:
+            cfg = CONFIGS[(pi * ctx.nshards + ctx.shard) % len(CONFIGS)]
+            size = rng.choice(["small", "small", "medium", "medium", "large"])
+            sc = LogixScenario(rng, size=size, config=cfg)
+            res.count("projects")
+            res.count(f"config:{sc.label}")
+            if not sc.ok():
                 res.ev()
-                res.violation(f"read-raises:{type(out).__name__}", f"read({[r.text for r in reqs]!r:.200}) raised {out!r:.200} ({sc.label})",
-                              {"requests": [r.text for r in reqs], "config": sc.label})
+                res.violation("open-failed", f"LogixDriver.open() against a conforming controller ({sc.label}, {len(sc.prj.user_tags())} tags) -> {sc.opened!r:.300}",
+                              {"config": sc.label, "log": [v[:3] for v in sc.b.log.violations[:3]]})
+                sc.close()
                 continue
-            check_read_call(res, sc, reqs, out)
-            pc = path_class(sc.dev, before)
-            for r in reqs:
-                res.seen(r.shape, r.dtype.kind if r.kind == "value" else r.kind, pc, sc.label, window_class(r.nbytes(), sc.conn_size))
-            res.count("read_calls")
-            res.count("requests", k)
-            for kind in pc:
-                res.count(f"path:{kind}")
-            if pi == 0 and ci < 3:
-                res.sample({"config": sc.label, "requests": [r.text for r in reqs][:4], "result": repr(out)[:300], "paths": pc})
-        sc.dev.finish_transfers()
-        sc.close()
+            ncalls = 20 if quick else 40
+            for ci in range(ncalls):
+                k = rng.choice([1, 1, 1, 2, 3, 5, 8, 12, 25])
+                reqs = [logixreq.gen_request(sc.prj, rng, sc.conn_size) for _ in range(k)]
+                if k > 2 and rng.random() < 0.3:
+                    reqs[rng.randrange(k)] = reqs[0]  # duplicates
+                before = len(sc.dev.reads_executed)
+                st, out = sc.b.call("read", sc.drv.read, *[r.text for r in reqs])
+                if st != "ok":
+                    res.ev()
+                    res.violation(f"read-raises:{type(out).__name__}", f"read({[r.text for r in reqs]!r:.200}) raised {out!r:.200} ({sc.label})",
+                                  {"requests": [r.text for r in reqs], "config": sc.label})
+                    continue
+                check_read_call(res, sc, reqs, out)
+                pc = path_class(sc.dev, before)
+                for r in reqs:
+                    res.seen(r.shape, r.dtype.kind if r.kind == "value" else r.kind, pc, sc.label, window_class(r.nbytes(), sc.conn_size))
+                res.count("read_calls")
+                res.count("requests", k)
+                for kind in pc:
+                    res.count(f"path:{kind}")
+                if pi == 0 and ci < 3:
+                    res.sample({"config": sc.label, "requests": [r.text for r in reqs][:4], "result": repr(out)[:300], "paths": pc})
+            sc.dev.finish_transfers()
+            sc.close()
+        except ScenarioDead:
+            continue
     return res
